@@ -23,6 +23,18 @@ def evaluate(spec):
     # the key log is shared: all connections' lines shuffled together, sometimes among hundreds of lines of connections that are not
     # in the capture (a browser's SSLKEYLOGFILE), so that the log is several read blocks long
     keys = {"file": True, "shuffle": True, "seed": spec.get("kseed", 0), "unrelated": spec.get("kpad", 0)}
+    solo_keys = {}
+    if spec.get("dsb_per_conn"):
+        # ... or the secrets travel in the capture: one decryption secrets block per connection, directly in front of its first packet
+        per = []
+        for ci, conn in enumerate(b.conns):
+            lines = [b.keylog.index(ln) for ln in getattr(conn, "keylog", []) if ln in b.keylog]
+            first = next((i for i, p in enumerate(b.pkts) if p.conn == ci), None)
+            if lines and first is not None:
+                per.append((first, lines))
+                solo_keys[ci] = {"file": False, "dsb": [lines], "dsb_pos": "first"}
+        if per:
+            keys = {"file": False, "dsb": [ln for _, ln in per], "dsb_pos": [f for f, _ in per]}
     o = oracle.run_e2e(b, wd, keys=keys, name="all")
     f = oracle.base_failure(o)
     evals = 1
@@ -36,7 +48,7 @@ def evaluate(spec):
         if cs["kind"] == "noise":
             continue
         solo_pk = [p for p in b.pkts if p.conn == ci]
-        os_ = oracle.run_e2e(b, wd, pkts=solo_pk, keys=keys, name="solo")
+        os_ = oracle.run_e2e(b, wd, pkts=solo_pk, keys=solo_keys.get(ci, keys) if spec.get("dsb_per_conn") else keys, name="solo")
         evals += 1
         f = oracle.base_failure(os_)
         if f:
@@ -87,6 +99,7 @@ def evaluate(spec):
         labels.append("client-port-equals-a-quic-server-port")
     if sum(1 for c in spec["conns"] if c.get("share_master")) >= 2:
         labels.append("tls-connections-with-equal-master-secret")
+    labels.append("keys:" + ("one DSB per connection in front of its first packet" if spec.get("dsb_per_conn") else "shared file"))
     labels.append("keylog:" + ("long (%d foreign lines)" % spec["kpad"] if spec.get("kpad") else "own lines only"))
     return {"sig": sig, "detail": detail, "nontrivial": exporting >= 2 and alt >= 3, "labels": labels, "evals": evals}
 
@@ -154,7 +167,8 @@ def spec_strategy(draw, tier):
         c["seed"] = c.get("seed", 0) * 16 + i
         conns.append(c)
     return {"conns": conns, "order": draw(st.lists(st.integers(0, 9), min_size=2, max_size=20)), "tseed": draw(st.integers(1, 1000)),
-            "kseed": draw(st.integers(0, 1 << 20)), "topology": topology, "kpad": draw(st.sampled_from([0, 0, 0, 120, 400]))}
+            "kseed": draw(st.integers(0, 1 << 20)), "topology": topology, "kpad": draw(st.sampled_from([0, 0, 0, 120, 400])),
+            "dsb_per_conn": draw(st.sampled_from([False, False, False, True]))}
 
 
 @st.composite
@@ -170,7 +184,7 @@ def quic_handshake_interleave(draw, tier):
         c["seed"] = c["seed"] * 16 + i
         conns.append(c)
     return {"conns": conns, "order": draw(st.lists(st.integers(0, 3), min_size=2, max_size=12)), "tseed": draw(st.integers(1, 1000)),
-            "kseed": draw(st.integers(0, 1 << 20)), "topology": "quic-handshakes"}
+            "kseed": draw(st.integers(0, 1 << 20)), "topology": "quic-handshakes", "dsb_per_conn": draw(st.sampled_from([False, False, True]))}
 
 
 def stages(tier):
